@@ -16,6 +16,7 @@ Set-up (documented deviations from a live system; everything else is the real co
   * instances are brought to RUNNING by data (`status._state`), their tick counter through the real
     `status.update_tick`; rules are set by data on the real ProcessRules / ApplicationRules (no rules file:
     `supv.parser = None`), then `application.update_sequences()`;
+  * `status.stats_collector = None` on every instance (the collector process is not started: its pipe would fill);
   * loss of instances: `status._state = FAILED` then the real `context.invalidate_failed()`; the commander part
     (`on_instances_invalidation` of both, as `_common_next` does) is a separate operation so that a periodic
     check can run in between, as in FiniteStateMachine.on_timer_event -> next.
@@ -111,6 +112,8 @@ class World:
         supv.rpc_handler = rec
         supv.parser = None
         supv.external_publisher = None
+        for status in supv.context.instances.values():
+            status.stats_collector = None      # nobody reads the statistics pipe in the harness
         self.commander = commander
         self.real_place = commander.get_supvisors_instance
         world = self
@@ -676,7 +679,10 @@ class SequencerSuite(Suite):
     name = 'sequencer'
     prelude = 'From Sup Require Import Sequencer.\nOpen Scope Z_scope.'
     case_type = 'case'
-    evals = {'mismatches': 'mismatches'}
+    evals = {'mismatches': 'mismatches',
+             'c03': 'spec_violations_c03', 'c09': 'spec_violations_c09', 'c10': 'spec_violations_c10',
+             'k03': 'known_noresource_c03', 'k09': 'known_noresource_c09', 'k10': 'known_noresource_c10',
+             'kto': 'known_timeout_strategy', 'kke': 'known_keyerror', 'crash': 'other_crashes'}
     shard_size = 60
     quick_cases = 600
     thorough_cases = 12000
